@@ -270,7 +270,6 @@ theorem mavenStep_some_none (a : MavenElem) (ha : elemOK a = true) (hs : sepOK a
       · have : ¬ oa < -2 := by omega
         simp [ho, h, sgnInt, this, compare_int, Outcome.bind]
       · have h1 : oa < 0 := by omega
-        have h2 : ¬ 0 < oa := by omega
         simp [ho, h, sgnInt, h1, compare_int]
 
 /-- The exception: a literal `.0` against a missing element continues. -/
